@@ -73,18 +73,24 @@ func TestC07aSlashTracker(t *testing.T) {
 			}
 		}
 		nDS := rapid.IntRange(2, 3).Draw(rt, "double-signs")
-		hs := []uint64{2, 3, 4}[:nDS]
+		hs := []uint64{2, 3, 4}[:nDS] // evidence heights of X (not indexed yet)
 		var L []item
 		for i, n := 0, rapid.IntRange(0, 2).Draw(rt, "before"); i < n; i++ {
 			L = append(L, validItem(rt, w, nil))
 		}
 		L = append(L, cert(2, &lib.CertificateResult{}, []int{xi}, fmt.Sprintf("certificateResults(committee 2, member %d does not sign)", xi), "valid", "valid=certificateResults"))
-		L = append(L, cert(3, ds(Y, 1), nil, fmt.Sprintf("certificateResults(committee 2: slashes non-signer %d, then stale double-sign evidence of member %d) [fails late: AFTER the non-signer slash]", xi, yi),
+		if rapid.IntRange(0, 2).Draw(rt, "earlier-valid-slash") != 0 {
+			// a VALID certificate that already slashes non-signer X (who misses again): X has an entry in the slash tracker BEFORE the
+			// failing certificate starts, so a rollback that restores the tracker by a shallow copy keeps the failed slash
+			L = append(L, cert(5, &lib.CertificateResult{}, []int{xi}, fmt.Sprintf("certificateResults(committee 2: slashes non-signer %d, who misses again)", xi), "valid", "valid=certificateResults-nonsigner-slash"))
+			cse.Class("shape=validator-already-in-slash-tracker-before-the-failing-slash")
+		}
+		L = append(L, cert(6, ds(Y, 1), nil, fmt.Sprintf("certificateResults(committee 2: slashes non-signer %d, then stale double-sign evidence of member %d) [fails late: AFTER the non-signer slash]", xi, yi),
 			"fails-late", "late=cert-results-slash-then-invalid-evidence"))
 		if rapid.Bool().Draw(rt, "between") {
 			L = append(L, validItem(rt, w, nil))
 		}
-		L = append(L, cert(4, ds(X, hs...), nil, fmt.Sprintf("certificateResults(committee 2: member %d double signed at %v)", xi, hs), "valid", "valid=certificateResults-double-sign"))
+		L = append(L, cert(7, ds(X, hs...), nil, fmt.Sprintf("certificateResults(committee 2: member %d double signed at %v)", xi, hs), "valid", "valid=certificateResults-double-sign"))
 		for i, n := 0, rapid.IntRange(0, 2).Draw(rt, "after"); i < n; i++ {
 			L = append(L, validItem(rt, w, nil))
 		}
